@@ -100,15 +100,20 @@ def enumRanges : List (Nat × Nat) → List Nat
   | [] => []
   | (a, b) :: t => List.range' a (b + 1 - a) ++ enumRanges t
 
-/-- `fipConf.IPNet().Contains(ip) && fipConf.Contains(ip)` (ConfigurePool) -/
+def Pool.inSubnet (p : Pool) (ip : Nat) : Bool := ip / 2 ^ (32 - p.bits) == p.gateway / 2 ^ (32 - p.bits)
+
+/-- `fipConf.IPNet().Contains(ip) && fipConf.Contains(ip)` (ConfigurePool): the pool an address belongs to is the first
+    one whose pod subnet AND ranges contain it (fact `configurePoolMatchesSubnetAndRanges`; if the source only asked
+    for the subnet, the first pool of a shared pod subnet would claim the addresses of the others) -/
 def Pool.has (p : Pool) (ip : Nat) : Bool :=
-  (ip / 2 ^ (32 - p.bits) == p.gateway / 2 ^ (32 - p.bits)) && inRanges p.ranges ip
+  p.inSubnet ip && (inRanges p.ranges ip || !Generated.Plugin.configurePoolMatchesSubnetAndRanges)
 
 def insertByGw (p : Pool) : List Pool → List Pool
   | [] => [p]
-  | q :: t => if p.gateway < q.gateway then p :: q :: t else q :: insertByGw p t
+  | q :: t => if p.gateway ≤ q.gateway then p :: q :: t else q :: insertByGw p t
 
-/-- `sort.Sort(FloatingIPSlice)`: by gateway (distinct gateways assumed; stable insertion sort here) -/
+/-- `sort.Sort(FloatingIPSlice)`: by gateway; Go's sort is an insertion sort for fewer than 12 elements, i.e. stable
+    (pools with equal gateways keep their configuration order) -/
 def sortPools (ps : List Pool) : List Pool := ps.foldr insertByGw []
 
 /-- the pool object an address hangs off: first pool (sorted order) containing it -/
@@ -304,6 +309,9 @@ structure State where
   -- plugin
   lastConf : Option (List Pool) := none
   nodeCache : Tbl String Subnet := []
+  -- the checklist (`resyncMeta.allocatedIPs`) of a resync pass in progress: taken by `resyncSnap`, consumed entry by
+  -- entry by `resyncRec` - any other move may happen in between
+  resyncSnap : Tbl IP Rec := []
   nextUid : Nat := 1
   -- per-move fault plan
   calls : Nat := 0
@@ -1029,7 +1037,8 @@ def reload (s : State) (pools : List Pool) : State × Out :=
 
 /-- a fresh process: informers re-listed, queued events and caches gone -/
 def restartBase (s : State) : State :=
-  { s with events := [], nodeCache := [], lastConf := none, vPods := s.pods, vApps := s.apps, vPoolObjs := s.poolObjs }
+  { s with events := [], nodeCache := [], lastConf := none, vPods := s.pods, vApps := s.apps, vPoolObjs := s.poolObjs,
+           resyncSnap := [] }
 
 /-- process restart: memory rebuilt from the store by `ConfigurePool(conf)` -/
 def restart (s : State) : State × Out :=
@@ -1054,6 +1063,8 @@ inductive Move
   | bind (ns name : String) (uid : Uid) (node : String) (ch : Choice) (fault pfault : Nat)
   | deliver (i : Nat) (fault pfault : Nat)
   | resync (order : List IP) (fault pfault : Nat)
+  | resyncSnap                                          -- fetchChecklist: snapshot of the records to examine
+  | resyncRec (ip : IP) (fault pfault : Nat)           -- one iteration of resyncAllocatedIPs for a snapshot entry
   | syncPodIPs (fault : Nat)
   | apiRelease (ip : IP) (k : Key) (fault pfault : Nat)
   | reload (pools : List Pool) (fault : Nat)
@@ -1113,6 +1124,12 @@ def step (F : Facts) (s : State) : Move → State × Out
   | .bind ns name uid node ch fault pfault => bind F (withFaults s fault pfault) ns name uid node ch
   | .deliver i fault pfault => deliver F (withFaults s fault pfault) i
   | .resync order fault pfault => resync F (withFaults s fault pfault) order
+  | .resyncSnap => ({ s with resyncSnap := s.alloc.filter (fun e => inChecklist e.2) }, {})
+  | .resyncRec ip fault pfault =>
+    match s.resyncSnap.get ip with
+    | none => (s, Out.bad)
+    | some r0 =>
+      ({ resyncOne F (withFaults s fault pfault) ip r0 with resyncSnap := s.resyncSnap.erase ip }, {})
   | .syncPodIPs fault => syncPodIPs (withFaults s fault 0)
   | .apiRelease ip k fault pfault => apiRelease F (withFaults s fault pfault) ip k
   | .reload pools fault => reload (withFaults s fault 0) pools
